@@ -305,10 +305,21 @@ func checkC05(c *Ctx) {
 	}
 	compareModes(c, "random", rc, rmeta, RunOpt{}, RunOpt{NoReg: true}, func(int) string { return "registers-observable" })
 
+	// 3b. interaction families (shadowing, dot keys, callee expressions, loop values, variadic pass-through, stale references)
+	var ic [][]string
+	var imeta []map[string]any
+	for _, src := range interactionPrograms() {
+		ic = append(ic, []string{src})
+		imeta = append(imeta, map[string]any{"family": "interaction"})
+		c.Case(src, true)
+	}
+	compareModes(c, "interaction", ic, imeta, RunOpt{}, RunOpt{NoReg: true}, func(int) string { return "registers-observable" })
+
 	// 4. pinned reproducers of listed findings (always run)
 	pinned := []struct{ sig, src string }{
 		{"loop-variable-visibility-after-loop", "i = 100; for i = 3 {}; println(i)"},
 		{"loop-variable-visibility-after-loop", "for j = 3 {}; println(catch(j).err)"},
+		{"loop-variable-visibility-after-loop", "f = func() {i}; for i = 3 {println(catch(f()).err)}"},
 	}
 	for _, p := range pinned {
 		a, _ := runHistory([]string{p.src}, RunOpt{})
